@@ -384,6 +384,44 @@ def _setitem_args(tier):
                     yield (FS(runs), i, fs)
 
 
+def _join_args(tier):
+    """FmtStr.join(iterable): separators of up to 2 runs (no runs, an empty run included) x every list of 0..2 items and a
+    sample of the lists of 3 (thorough: all of them) drawn from 7 operands (str incl. "", FmtStr without runs / with an
+    empty run / several runs); str items with wide / combining / control characters; an item that is neither (int, None,
+    a list) at every position -- TypeError, whatever was joined before it; iterables that are a str (its characters)
+    or not iterable at all.  (Not here: a str item with ESC[ -- fmtstr() parses it, the oracle refuses it -- and bytes
+    items, which the real fmtstr() rejects with a TypeError of its own.)"""
+    seps = list(_layouts(["", "a", "bc"], [PLAIN, RED], 2 if tier == "thorough" else 1)) + \
+        [[["-", list(BOLD_ON_BLUE)], ["", list(PLAIN)]], [["a" + WIDE + COMB, list(RED)], [CTRL, list(PLAIN)]]]
+    k = 0
+    for runs in seps:
+        for n in range(4):
+            for items in itertools.product(OPERANDS, repeat=n):
+                k += 1
+                if n < 3 or tier == "thorough" or k % 7 == 0:
+                    yield (FS(runs), list(items))
+        yield (FS(runs), [WIDE + COMB, CTRL, FS([[COMB + "x", list(RED)]])])
+        for bad in (5, None, [], True):
+            yield (FS(runs), [bad])
+            yield (FS(runs), ["X", bad])
+            yield (FS(runs), [FS([["P", list(BOLD_ON_BLUE)]]), "", bad, "YZ"])
+            yield (FS(runs), [FS([]), FS([["", list(RED)]]), bad])
+        yield (FS(runs), "")
+        yield (FS(runs), "ab" + WIDE)
+        yield (FS(runs), 5)
+        yield (FS(runs), None)
+
+
+def _mul_args(tier):
+    """FmtStr.__mul__(n): every layout of up to 2 (thorough: 3) runs x every int in -2 .. 4, 11, and the bools (bool is a
+    subclass of int: range(True)) -- this is what validates range(n) and sum(iterable, start) of the interpreter.  (Not here:
+    an operand that is not an int -- the text answers NotImplemented, which is not a value of the interpreter.)"""
+    for runs in _layouts(["", "a", "bc"], [PLAIN, RED], 3 if tier == "thorough" else 2):
+        for n in list(range(-2, 5)) + [11, True, False]:
+            yield (FS(runs), n)
+    yield (FS([["a" + WIDE + COMB, list(BOLD_ON_BLUE)], ["", list(PLAIN)], [CTRL, list(RED)]]), 3)
+
+
 FMT_CHARS = "abcdxy" + WIDE + COMB + CTRL
 
 EMPTY = "empty_ctx"
@@ -394,6 +432,8 @@ FUNCS = {
     "FmtStr_splice": ("curtsies.formatstring", "py_FmtStr_splice", _splice_args, "ctxF3", "FmtStr.splice"),
     "FmtStr_add": ("curtsies.formatstring", "py_FmtStr_add", _add_args, "ctxF3", "FmtStr.__add__"),
     "FmtStr_radd": ("curtsies.formatstring", "py_FmtStr_radd", _add_args, "ctxF3", "FmtStr.__radd__"),
+    "FmtStr_join": ("curtsies.formatstring", "py_FmtStr_join", _join_args, "ctxF3", "FmtStr.join"),
+    "FmtStr_mul": ("curtsies.formatstring", "py_FmtStr_mul", _mul_args, "ctxF4", "FmtStr.__mul__"),
     "FmtStr_append": ("curtsies.formatstring", "py_FmtStr_append", _append_args, "ctxF4", "FmtStr.append"),
     "FmtStr_setslice_with_length": ("curtsies.formatstring", "py_FmtStr_setslice_with_length", _setslice_args, "ctxF4",
                                     "FmtStr.setslice_with_length"),
@@ -443,7 +483,13 @@ class Pass:
         def conv(v):
             from curtsies.formatstring import FmtStr
             return FS(canon.canon_fs(v)) if isinstance(v, FmtStr) else v
-        return canon.outcome(lambda: self.fn(*[canon.build_fs(a.runs) if isinstance(a, FS) else a for a in args]), conv)
+        def build(a):
+            if isinstance(a, FS):
+                return canon.build_fs(a.runs)
+            if isinstance(a, list):                                     # the items of join
+                return [build(x) for x in a]
+            return a
+        return canon.outcome(lambda: self.fn(*[build(a) for a in args]), conv)
 
     def to_coq(self, args, out):
         exp = "(Ok %s)" % coq_val(out[1]) if out[0] == "ok" else "(Raise %s)" % out[1]
